@@ -314,24 +314,24 @@ package openflow13
 //@   ensures err == nil && message != nil ==> wfl(message)
 
 // C04: the parser entry point yields the kind the header's type byte names (OpenFlow 1.3.5 section 7.1, enum ofp_type)
-//@ also Parse(b) (message, err) [C04]
-//@   ensures[C04] (err == nil && u8(b, 1) == 0) ==> typeis(message, *common.Hello)
-//@   ensures[C04] (err == nil && u8(b, 1) == 1 && be16(b, 8) != 65535) ==> typeis(message, *ErrorMsg)
-//@   ensures[C04] (err == nil && u8(b, 1) == 1 && be16(b, 8) == 65535) ==> typeis(message, *VendorError)
-//@   ensures[C04] (err == nil && (u8(b, 1) == 2 || u8(b, 1) == 3 || u8(b, 1) == 5 || u8(b, 1) == 7 || u8(b, 1) == 20 || u8(b, 1) == 21)) ==> typeis(message, *common.Header)
-//@   ensures[C04] (err == nil && u8(b, 1) == 4) ==> typeis(message, *VendorHeader)
-//@   ensures[C04] (err == nil && u8(b, 1) == 6) ==> typeis(message, *SwitchFeatures)
-//@   ensures[C04] (err == nil && (u8(b, 1) == 8 || u8(b, 1) == 9)) ==> typeis(message, *SwitchConfig)
-//@   ensures[C04] (err == nil && u8(b, 1) == 10) ==> typeis(message, *PacketIn)
-//@   ensures[C04] (err == nil && u8(b, 1) == 11) ==> typeis(message, *FlowRemoved)
-//@   ensures[C04] (err == nil && u8(b, 1) == 12) ==> typeis(message, *PortStatus)
-//@   ensures[C04] (err == nil && u8(b, 1) == 13) ==> typeis(message, *PacketOut)
-//@   ensures[C04] (err == nil && u8(b, 1) == 14) ==> typeis(message, *FlowMod)
-//@   ensures[C04] (err == nil && u8(b, 1) == 15) ==> typeis(message, *GroupMod)
-//@   ensures[C04] (err == nil && u8(b, 1) == 16) ==> typeis(message, *PortMod)
-//@   ensures[C04] (err == nil && u8(b, 1) == 18) ==> typeis(message, *MultipartRequest)
-//@   ensures[C04] (err == nil && u8(b, 1) == 19) ==> typeis(message, *MultipartReply)
-//@   ensures[C04] len(b) < 8 ==> err != nil
+//@ also Parse(b) (message, err) [C04 C05]
+//@   ensures[C04 C05] (err == nil && u8(b, 1) == 0) ==> typeis(message, *common.Hello)
+//@   ensures[C04 C05] (err == nil && u8(b, 1) == 1 && be16(b, 8) != 65535) ==> typeis(message, *ErrorMsg)
+//@   ensures[C04 C05] (err == nil && u8(b, 1) == 1 && be16(b, 8) == 65535) ==> typeis(message, *VendorError)
+//@   ensures[C04 C05] (err == nil && (u8(b, 1) == 2 || u8(b, 1) == 3 || u8(b, 1) == 5 || u8(b, 1) == 7 || u8(b, 1) == 20 || u8(b, 1) == 21)) ==> typeis(message, *common.Header)
+//@   ensures[C04 C05] (err == nil && u8(b, 1) == 4) ==> typeis(message, *VendorHeader)
+//@   ensures[C04 C05] (err == nil && u8(b, 1) == 6) ==> typeis(message, *SwitchFeatures)
+//@   ensures[C04 C05] (err == nil && (u8(b, 1) == 8 || u8(b, 1) == 9)) ==> typeis(message, *SwitchConfig)
+//@   ensures[C04 C05] (err == nil && u8(b, 1) == 10) ==> typeis(message, *PacketIn)
+//@   ensures[C04 C05] (err == nil && u8(b, 1) == 11) ==> typeis(message, *FlowRemoved)
+//@   ensures[C04 C05] (err == nil && u8(b, 1) == 12) ==> typeis(message, *PortStatus)
+//@   ensures[C04 C05] (err == nil && u8(b, 1) == 13) ==> typeis(message, *PacketOut)
+//@   ensures[C04 C05] (err == nil && u8(b, 1) == 14) ==> typeis(message, *FlowMod)
+//@   ensures[C04 C05] (err == nil && u8(b, 1) == 15) ==> typeis(message, *GroupMod)
+//@   ensures[C04 C05] (err == nil && u8(b, 1) == 16) ==> typeis(message, *PortMod)
+//@   ensures[C04 C05] (err == nil && u8(b, 1) == 18) ==> typeis(message, *MultipartRequest)
+//@   ensures[C04 C05] (err == nil && u8(b, 1) == 19) ==> typeis(message, *MultipartReply)
+//@   ensures[C04 C05] len(b) < 8 ==> err != nil
 
 //@ func decodeVendorData(experimenterType, data) (msg, err) [C07 C12]
 //@   allocbound max(4096, len(data))
@@ -341,18 +341,18 @@ package openflow13
 // ---------------------------------------------------------------------------------------------
 // C04 instance lemmas (zz_lemmas_verif.go): multipart replies with two records. The requires clauses describe the
 // conformant message (OpenFlow 1.3.5 sections 7.3.5, 7.2.1, 7.3.5.2); everything not mentioned is symbolic.
-//@ func lemmaParsePortDescReply(b) (message, err) [C04]
+//@ func lemmaParsePortDescReply(b) (message, err) [C04 C05]
 //@   inlinecalls
 //@   allowglobals
 //@   unroll 4
 //@   requires len(b) == 144 && u8(b, 0) == 4 && u8(b, 1) == 19 && be16(b, 2) == 144 && be16(b, 8) == 13
-//@   ensures[C04] err == nil && typeis(message, *MultipartReply) && message.(*MultipartReply).Type == 13 && message.(*MultipartReply).Flags == be16(b, 10) && len(message.(*MultipartReply).Body) == 2
-//@   ensures[C04] err == nil ==> typeis(message.(*MultipartReply).Body[0], *PhyPort) && message.(*MultipartReply).Body[0].(*PhyPort).PortNo == be32(b, 16) && bytes_eq(message.(*MultipartReply).Body[0].(*PhyPort).HWAddr, 0, b, 24, 6) && bytes_eq(message.(*MultipartReply).Body[0].(*PhyPort).Name, 0, b, 32, 16) && message.(*MultipartReply).Body[0].(*PhyPort).Config == be32(b, 48) && message.(*MultipartReply).Body[0].(*PhyPort).State == be32(b, 52) && message.(*MultipartReply).Body[0].(*PhyPort).MaxSpeed == be32(b, 76)
-//@   ensures[C04] err == nil ==> typeis(message.(*MultipartReply).Body[1], *PhyPort) && message.(*MultipartReply).Body[1].(*PhyPort).PortNo == be32(b, 80) && bytes_eq(message.(*MultipartReply).Body[1].(*PhyPort).HWAddr, 0, b, 88, 6) && bytes_eq(message.(*MultipartReply).Body[1].(*PhyPort).Name, 0, b, 96, 16) && message.(*MultipartReply).Body[1].(*PhyPort).Config == be32(b, 112) && message.(*MultipartReply).Body[1].(*PhyPort).MaxSpeed == be32(b, 140)
+//@   ensures[C04 C05] err == nil && typeis(message, *MultipartReply) && message.(*MultipartReply).Type == 13 && message.(*MultipartReply).Flags == be16(b, 10) && len(message.(*MultipartReply).Body) == 2
+//@   ensures[C04 C05] err == nil ==> typeis(message.(*MultipartReply).Body[0], *PhyPort) && message.(*MultipartReply).Body[0].(*PhyPort).PortNo == be32(b, 16) && bytes_eq(message.(*MultipartReply).Body[0].(*PhyPort).HWAddr, 0, b, 24, 6) && bytes_eq(message.(*MultipartReply).Body[0].(*PhyPort).Name, 0, b, 32, 16) && message.(*MultipartReply).Body[0].(*PhyPort).Config == be32(b, 48) && message.(*MultipartReply).Body[0].(*PhyPort).State == be32(b, 52) && message.(*MultipartReply).Body[0].(*PhyPort).MaxSpeed == be32(b, 76)
+//@   ensures[C04 C05] err == nil ==> typeis(message.(*MultipartReply).Body[1], *PhyPort) && message.(*MultipartReply).Body[1].(*PhyPort).PortNo == be32(b, 80) && bytes_eq(message.(*MultipartReply).Body[1].(*PhyPort).HWAddr, 0, b, 88, 6) && bytes_eq(message.(*MultipartReply).Body[1].(*PhyPort).Name, 0, b, 96, 16) && message.(*MultipartReply).Body[1].(*PhyPort).Config == be32(b, 112) && message.(*MultipartReply).Body[1].(*PhyPort).MaxSpeed == be32(b, 140)
 
 // two flow-stats records: the first with an in_port match (padded to 16) and a goto-table instruction (72 bytes),
 // the second with an empty match (8) and no instruction (56 bytes)
-//@ func lemmaParseFlowStatsReply(b) (message, err) [C04]
+//@ func lemmaParseFlowStatsReply(b) (message, err) [C04 C05]
 //@   inlinecalls
 //@   allowglobals
 //@   unroll 4
@@ -360,8 +360,27 @@ package openflow13
 //@   requires len(b) == 144 && u8(b, 0) == 4 && u8(b, 1) == 19 && be16(b, 2) == 144 && be16(b, 8) == 1
 //@   requires be16(b, 16) == 72 && be16(b, 64) == 1 && be16(b, 66) == 12 && be32(b, 68) == 2147483652 && be16(b, 80) == 1 && be16(b, 82) == 8
 //@   requires be16(b, 88) == 56 && be16(b, 136) == 1 && be16(b, 138) == 4
-//@   ensures[C04] err == nil && typeis(message, *MultipartReply) && len(message.(*MultipartReply).Body) == 2
-//@   ensures[C04] err == nil ==> typeis(message.(*MultipartReply).Body[0], *FlowStats) && message.(*MultipartReply).Body[0].(*FlowStats).TableId == u8(b, 18) && message.(*MultipartReply).Body[0].(*FlowStats).Priority == be16(b, 28) && message.(*MultipartReply).Body[0].(*FlowStats).Cookie == be64(b, 40) && message.(*MultipartReply).Body[0].(*FlowStats).ByteCount == be64(b, 56)
-//@   ensures[C04] err == nil ==> typeis(message.(*MultipartReply).Body[0], *FlowStats) && len(message.(*MultipartReply).Body[0].(*FlowStats).Match.Fields) == 1 && typeis(message.(*MultipartReply).Body[0].(*FlowStats).Match.Fields[0].Value, *InPortField) && message.(*MultipartReply).Body[0].(*FlowStats).Match.Fields[0].Value.(*InPortField).InPort == be32(b, 72)
-//@   ensures[C04] err == nil ==> typeis(message.(*MultipartReply).Body[0], *FlowStats) && len(message.(*MultipartReply).Body[0].(*FlowStats).Instructions) == 1 && typeis(message.(*MultipartReply).Body[0].(*FlowStats).Instructions[0], *InstrGotoTable) && message.(*MultipartReply).Body[0].(*FlowStats).Instructions[0].(*InstrGotoTable).TableId == u8(b, 84)
-//@   ensures[C04] err == nil ==> typeis(message.(*MultipartReply).Body[1], *FlowStats) && message.(*MultipartReply).Body[1].(*FlowStats).TableId == u8(b, 90) && message.(*MultipartReply).Body[1].(*FlowStats).Priority == be16(b, 100) && message.(*MultipartReply).Body[1].(*FlowStats).Cookie == be64(b, 112) && len(message.(*MultipartReply).Body[1].(*FlowStats).Match.Fields) == 0 && len(message.(*MultipartReply).Body[1].(*FlowStats).Instructions) == 0
+//@   ensures[C04 C05] err == nil && typeis(message, *MultipartReply) && len(message.(*MultipartReply).Body) == 2
+//@   ensures[C04 C05] err == nil ==> typeis(message.(*MultipartReply).Body[0], *FlowStats) && message.(*MultipartReply).Body[0].(*FlowStats).TableId == u8(b, 18) && message.(*MultipartReply).Body[0].(*FlowStats).Priority == be16(b, 28) && message.(*MultipartReply).Body[0].(*FlowStats).Cookie == be64(b, 40) && message.(*MultipartReply).Body[0].(*FlowStats).ByteCount == be64(b, 56)
+//@   ensures[C04 C05] err == nil ==> typeis(message.(*MultipartReply).Body[0], *FlowStats) && len(message.(*MultipartReply).Body[0].(*FlowStats).Match.Fields) == 1 && typeis(message.(*MultipartReply).Body[0].(*FlowStats).Match.Fields[0].Value, *InPortField) && message.(*MultipartReply).Body[0].(*FlowStats).Match.Fields[0].Value.(*InPortField).InPort == be32(b, 72)
+//@   ensures[C04 C05] err == nil ==> typeis(message.(*MultipartReply).Body[0], *FlowStats) && len(message.(*MultipartReply).Body[0].(*FlowStats).Instructions) == 1 && typeis(message.(*MultipartReply).Body[0].(*FlowStats).Instructions[0], *InstrGotoTable) && message.(*MultipartReply).Body[0].(*FlowStats).Instructions[0].(*InstrGotoTable).TableId == u8(b, 84)
+//@   ensures[C04 C05] err == nil ==> typeis(message.(*MultipartReply).Body[1], *FlowStats) && message.(*MultipartReply).Body[1].(*FlowStats).TableId == u8(b, 90) && message.(*MultipartReply).Body[1].(*FlowStats).Priority == be16(b, 100) && message.(*MultipartReply).Body[1].(*FlowStats).Cookie == be64(b, 112) && len(message.(*MultipartReply).Body[1].(*FlowStats).Match.Fields) == 0 && len(message.(*MultipartReply).Body[1].(*FlowStats).Instructions) == 0
+
+// C05/C04: directional match fields decode into the payload kind of their direction (a source address field into the
+// source kind, a destination field into the destination kind); field numbers from OpenFlow 1.3.5 Table 12 and
+// OVS meta-flow.h. Same width on both sides, so only a kind check sees a mix-up.
+//@ also DecodeMatchField(class, field, length, hasMask, data) (msg, err) [C05 C04]
+//@   ensures[C05 C04] (err == nil && class == 32768 && field == 3) ==> typeis(msg, *EthDstField)
+//@   ensures[C05 C04] (err == nil && class == 32768 && field == 4) ==> typeis(msg, *EthSrcField)
+//@   ensures[C05 C04] (err == nil && class == 32768 && field == 11) ==> typeis(msg, *Ipv4SrcField)
+//@   ensures[C05 C04] (err == nil && class == 32768 && field == 12) ==> typeis(msg, *Ipv4DstField)
+//@   ensures[C05 C04] (err == nil && class == 32768 && field == 26) ==> typeis(msg, *Ipv6SrcField)
+//@   ensures[C05 C04] (err == nil && class == 32768 && field == 27) ==> typeis(msg, *Ipv6DstField)
+//@   ensures[C05 C04] (err == nil && class == 1 && field == 31) ==> typeis(msg, *TunnelIpv4SrcField)
+//@   ensures[C05 C04] (err == nil && class == 1 && field == 32) ==> typeis(msg, *TunnelIpv4DstField)
+//@   ensures[C05 C04] (err == nil && class == 1 && field == 109) ==> typeis(msg, *Ipv6SrcField)
+//@   ensures[C05 C04] (err == nil && class == 1 && field == 110) ==> typeis(msg, *Ipv6DstField)
+//@   ensures[C05 C04] (err == nil && class == 1 && field == 120) ==> typeis(msg, *Ipv4SrcField)
+//@   ensures[C05 C04] (err == nil && class == 1 && field == 121) ==> typeis(msg, *Ipv4DstField)
+//@   ensures[C05 C04] (err == nil && class == 1 && field == 122) ==> typeis(msg, *Ipv6SrcField)
+//@   ensures[C05 C04] (err == nil && class == 1 && field == 123) ==> typeis(msg, *Ipv6DstField)
